@@ -331,7 +331,14 @@ def decode(out, case):
 
 
 def oracle(case, obs):
-    return L.traced(_oracle, case, obs)
+    try:
+        return L.traced(_oracle, case, obs)
+    except Exception as e:           # every call into the implementation ends as an observation, never as a crash
+        import traceback
+        tb = traceback.extract_tb(e.__traceback__)
+        where = ['%s:%d %s' % (fr.filename.rsplit('/', 1)[-1], fr.lineno, fr.name) for fr in tb[-3:]]
+        return 'the oracle\'s own use of the implementation (replay / fresh router) raised %s: %s [%s]' % (
+            type(e).__name__, str(e)[:200], '; '.join(where))
 
 
 import re as _re
